@@ -302,10 +302,10 @@ class CallMixin:
             return self.list_method(d[5:], self_val, args, kwargs, frame, node)
         if d.startswith("dict."):
             m = d[5:]
-            if m == "get" and isinstance(args[0], StrV):
-                k = args[0] if args[0].s is not None else self.concretize_str(args[0], frame, node)
-                if k is not None and k.s is not None:
-                    return self_val.items.get(k.s, args[1] if len(args) > 1 else NONE)
+            if m == "get" and args:
+                key = self.const_key(args[0], frame, node)
+                if key is not None:
+                    return self_val.items.get(key, args[1] if len(args) > 1 else NONE)
             if m in ("keys", "values", "items"):
                 vals = {"keys": [StrV(k) for k in self_val.items], "values": list(self_val.items.values()),
                         "items": [TupV([StrV(k), v]) for k, v in self_val.items.items()]}[m]
@@ -549,6 +549,14 @@ class CallMixin:
         if d in ("operator.add", "operator.sub", "operator.mul", "operator.truediv", "operator.pow") and len(args) == 2 and not kwargs:
             opn = {"add": ast.Add(), "sub": ast.Sub(), "mul": ast.Mult(), "truediv": ast.Div(), "pow": ast.Pow()}[d.split(".")[1]]
             return self.binop(opn, args[0], args[1], frame, node)
+        if d == "operator.methodcaller" and args:
+            nm = self.resolve_maybe(args[0])
+            if not (isinstance(nm, StrV) and nm.s is not None):
+                raise Unmodelled("methodcaller of a non-constant name at %s" % frame.loc(node))
+            return FuncV("ext", dotted="operator.methodcaller()", self_val=(nm.s, list(args[1:]), dict(kwargs)))
+        if d == "operator.methodcaller()" and len(args) == 1 and not kwargs:
+            nm, margs, mkw = self_val
+            return self.call_function(self.getattr(args[0], nm, frame, node), list(margs), dict(mkw), frame, node)
         if d == "functools.reduce" and len(args) in (2, 3) and not kwargs:
             seq = self.force(args[1], frame, node)
             items = self.as_items(seq, frame, node) if not (isinstance(seq, ObjV) and not getattr(seq.cls, "is_namedtuple", False)) else None
@@ -598,7 +606,13 @@ class CallMixin:
                 cols = [self.as_items(q, frame, node) for q in seqs]
                 return ListV("lit", items=[self.call_function(args[0], [c[i] for c in cols], {}, frame, node) for i in range(min(len(c) for c in cols))])
             if len(seqs) != 1:
-                raise Unmodelled("map over several sequences of unknown length at %s" % frame.loc(node))
+                # several sequences walked in step, as zip does: element i of each, over the length of the first
+                # (sequences of equal length, the usual case — the same convention as for zip)
+                z = self.call_ext("builtins.zip", None, list(seqs), {}, frame, node)
+                if not (isinstance(z, ListV) and z.kind == "fam" and isinstance(z.elem, TupV)):
+                    raise Unmodelled("map over several sequences of unknown length at %s" % frame.loc(node))
+                val = self.call_function(args[0], list(z.elem.items), {}, frame, node)
+                return ListV("fam", idx=z.idx, lo=z.lo, hi=z.hi, elem=val)
             lo, hi, idx, elem = self.iter_family(seqs[0], frame, node)
             try:
                 val = self.call_function(args[0], [elem], {}, frame, node)
